@@ -58,6 +58,9 @@ func VerifC42_FindUsedBlobs() {
 		for s := 0; s < 2; s++ {
 			c := verifC42Pick("child", 0, 1+K)
 			verifrt.Assume(c < 2 || c-2 > k) // acyclic: content-addressed trees cannot contain themselves
+			if c == 0 && k == 0 && s == 1 && verifrt.Param("allow_null", 1) != 0 && verifrt.Bool("nullSubtree") {
+				c = -1 // a directory node whose subtree ID is all zeros (damaged or hand-made tree): ignored
+			}
 			child[k][s] = c
 		}
 	}
@@ -92,6 +95,9 @@ func VerifC42_FindUsedBlobs() {
 				switch {
 				case c == 0:
 					continue
+				case c == -1:
+					var null restic.ID
+					n = &Node{Name: "n", Type: NodeTypeDir, Subtree: &null}
 				case c == 1:
 					n = &Node{Name: "f", Type: NodeTypeFile, Content: restic.IDs{verifC42DataID(k)}}
 				default:
